@@ -36,6 +36,11 @@ type SpecP struct {
 	Partition int32   `json:"partition,omitempty"`
 	Limit     int32   `json:"limit"`
 	Claims    int     `json:"claims,omitempty"`
+	// SelExpr: the selector uses matchExpressions only (no matchLabels)
+	SelExpr bool `json:"sel_expr,omitempty"`
+	// ClaimLabels: claim templates carry labels of their own
+	ClaimLabels bool   `json:"claim_labels,omitempty"`
+	Service     string `json:"service,omitempty"`
 }
 
 // PodP describes one constructed pod of the initial population.
@@ -130,6 +135,10 @@ type Op struct {
 	InterA    int    `json:"inter_a,omitempty"`
 	InterB    int    `json:"inter_b,omitempty"`
 	Worker    bool   `json:"worker,omitempty"` // run through one real worker step (queue bookkeeping observed)
+	// claim faults (C06): 1 claim create -> server error, 2 claim create applied but reported as timeout,
+	// 3 claim cache lookup fails, 4 claim dropped from the cache first (so its create hits AlreadyExists)
+	PVCFault int `json:"pvc_fault,omitempty"`
+	PVCIdx   int `json:"pvc_idx,omitempty"` // which claim create / lookup of the reconcile is hit (0-based)
 }
 
 func (o Op) String() string {
@@ -158,7 +167,7 @@ func tmplImage(t int) string { return fmt.Sprintf("img:%d", t) }
 func (s SpecP) selectorLabels() map[string]string { return map[string]string{"app": s.Name} }
 
 func claimTemplates(n int) []corev1.PersistentVolumeClaim {
-	names := []string{"data", "logs"}
+	names := []string{"data", "logs", "www-1"}
 	var out []corev1.PersistentVolumeClaim
 	for i := 0; i < n && i < len(names); i++ {
 		out = append(out, corev1.PersistentVolumeClaim{
@@ -208,6 +217,17 @@ func applySpec(set *asv1.StatefulSet, s SpecP) {
 	l := s.Limit
 	set.Spec.RevisionHistoryLimit = &l
 	set.Spec.VolumeClaimTemplates = claimTemplates(s.Claims)
+	if s.ClaimLabels {
+		for i := range set.Spec.VolumeClaimTemplates {
+			set.Spec.VolumeClaimTemplates[i].Labels = map[string]string{"tier": "storage"}
+		}
+	}
+	if s.SelExpr {
+		set.Spec.Selector = &metav1.LabelSelector{MatchExpressions: []metav1.LabelSelectorRequirement{{Key: "app", Operator: metav1.LabelSelectorOpIn, Values: []string{s.Name}}}}
+	}
+	if s.Service != "" {
+		set.Spec.ServiceName = s.Service
+	}
 }
 
 func newSet(s SpecP, tmpl int) *asv1.StatefulSet {
@@ -334,6 +354,9 @@ type Sys struct {
 	OnRecord func(r *sim.Record, op *Op)
 	// counters
 	Reconciles int
+	// PVCFaulted: claim names hit by an injected claim fault in the running reconcile
+	PVCFaulted       []string
+	lastPVCFaultKind int
 }
 
 func (s *Sys) logf(format string, args ...interface{}) {
@@ -683,8 +706,38 @@ func (s *Sys) Reconcile(op *Op) *sim.Record {
 	c.ListPerm = op.Perm
 	n := 0
 	faultDone, interDone := false, false
+	pvcCreates, pvcLookups := 0, 0
+	s.PVCFaulted = nil
+	if op.PVCFault == 3 || op.PVCFault == 4 {
+		c.PVCListerHook = func(name string) error {
+			idx := pvcLookups
+			pvcLookups++
+			if idx != op.PVCIdx {
+				return nil
+			}
+			s.PVCFaulted = append(s.PVCFaulted, name)
+			if op.PVCFault == 3 {
+				return fmt.Errorf("injected claim cache failure")
+			}
+			if p := c.PVC(NS, name); p != nil {
+				c.CacheDeleteRaw(p)
+			}
+			return nil
+		}
+	}
 	c.Intercept = func(a *sim.Action) *sim.Fault {
 		n++
+		if (op.PVCFault == 1 || op.PVCFault == 2) && a.Verb == "create" && a.Resource == "persistentvolumeclaims" {
+			idx := pvcCreates
+			pvcCreates++
+			if idx == op.PVCIdx {
+				s.PVCFaulted = append(s.PVCFaulted, a.Name)
+				if op.PVCFault == 1 {
+					return &sim.Fault{Err: apierrors.NewInternalError(fmt.Errorf("injected claim create failure"))}
+				}
+				return &sim.Fault{Err: apierrors.NewTimeoutError("injected timeout (applied)", 1), Apply: true}
+			}
+		}
 		if op.InterAt > 0 && n == op.InterAt && !interDone {
 			interDone = true
 			s.logf("  [interference before call %d: %s]", n, a)
@@ -703,6 +756,7 @@ func (s *Sys) Reconcile(op *Op) *sim.Record {
 		r = c.Reconcile(s.Key)
 	}
 	c.Intercept = nil
+	c.PVCListerHook = nil
 	s.Reconciles++
 	s.Trace = append(s.Trace, func() string { return strings.TrimRight(r.Transcript(), "\n") })
 	if s.OnRecord != nil {
